@@ -1,11 +1,15 @@
 import CJ.Drv.Loop
 import CJ.Drv.HalfPipe
 import CJ.Drv.RelayClock
-/-! Driver for C05: the relay model (`halfPipe`, `Proxy`) and the relay's deadlines on a virtual clock. -/
+import CJ.Drv.StatsEpoch
+/-! Driver for C05: the relay model (`halfPipe`, `Proxy`), the relay's deadlines on a virtual clock, and the
+proxy statistics across epochs. -/
 open CJ.Drv
 
 def main : IO Unit := runDriver fun
   | "halfpipe" :: args => HalfPipe.handle args
   | "proxy" :: args => HalfPipe.handleProxy args
   | "relayclock" :: args => RelayClock.handle args
+  | "statsepoch" :: args => StatsEpoch.handle args
+  | "sessions" :: args => StatsEpoch.handleSessions args
   | _ => none
